@@ -1,1 +1,4 @@
 import TaskModel.Resolve.Glob
+import TaskModel.Remote.Model
+import TaskModel.Remote.Lemmas
+import TaskModel.Remote.Tie
